@@ -12,9 +12,9 @@ import (
 func init() {
 	Register(&PropDef{
 		ID: "C13", QuickRuns: 4800, Level: "exploration",
-		Rule: "one run = one association with 1-4 sessions (downlink FAR with or without the notify flag) on the BESS datapath and 5-40 datapath reports (8-byte records on the notify socket) for known, unknown and deleted sessions at times drawn around multiples of the 20 s interval (bursts, exactly one interval apart +/- a few ms, long gaps); optionally a repeating PRNG forces F-SEID reuse by a later session; the control plane moves sessions to new CP F-SEIDs (with and without a rule change); one run in four uses the P4Runtime datapath, where reports are digests carrying the UE address on the stream channel. Oracle at the peer socket: the set of Session Report Requests equals the reference notifier (first report of a session forwarded, then at most one per interval), each addressed with the CP SEID, with a sequence number not used before by the agent and a Downlink Data Report naming the session's downlink PDR; none for unknown / non-notifying sessions. Non-trivial = at least one forwarded and one suppressed report; distinct = different sequence of (session kind, interval class, forwarded?). Also: on UP4 a deletion refused after a failed Write (the session keeps reporting); rarely a burst of more reports at one instant than the report queue holds, the node loop starved (PCT).",
+		Rule:   "one run = one association with 1-4 sessions (downlink FAR with or without the notify flag) on the BESS datapath and 5-40 datapath reports (8-byte records on the notify socket) for known, unknown and deleted sessions at times drawn around multiples of the 20 s interval (bursts, exactly one interval apart +/- a few ms, long gaps); optionally a repeating PRNG forces F-SEID reuse by a later session; the control plane moves sessions to new CP F-SEIDs (with and without a rule change); one run in four uses the P4Runtime datapath, where reports are digests carrying the UE address on the stream channel. Oracle at the peer socket: the set of Session Report Requests equals the reference notifier (first report of a session forwarded, then at most one per interval), each addressed with the CP SEID, with a sequence number not used before by the agent and a Downlink Data Report naming the session's downlink PDR; none for unknown / non-notifying sessions. Non-trivial = at least one forwarded and one suppressed report; distinct = different sequence of (session kind, interval class, forwarded?). Also: on UP4 a deletion refused after a failed Write (the session keeps reporting); rarely a burst of more reports at one instant than the report queue holds, the node loop starved (PCT).",
 		Assume: []string{"reports closer than 3 ms to an exact multiple of the interval after the previous forwarded one are not generated (the agent's clock reads are a few ns later than the injection instant)", "one association (the code documents multi-association routing as not implemented)"},
-		Real: CommonReal, Simulated: CommonSim,
+		Real:   CommonReal, Simulated: CommonSim,
 		Scenario: scenarioC13,
 	})
 }
@@ -66,8 +66,8 @@ func scenarioC13(r *Run) {
 		notify  bool
 		dlPDR   uint16
 		live    bool
-		lastFwd int64 // model: last forwarded report (-1 none)
-		gen     int   // generation (for SEID reuse)
+		lastFwd int64    // model: last forwarded report (-1 none)
+		gen     int      // generation (for SEID reuse)
 		seidAt  []int64  // history of the control plane's SEID: valid from seidAt[i] ...
 		seids   []uint64 // ... the value
 	}
@@ -108,10 +108,10 @@ func scenarioC13(r *Run) {
 	}
 	// model of what the agent's notifier remembers per F-SEID (it never forgets)
 	type fwd struct {
-		at   int64
-		si   *sessInfo
-		cpseid uint64 // the control plane's SEID of the session when the report was made
-		reusedFirst bool // first report of a session that inherited the F-SEID of a deleted one
+		at          int64
+		si          *sessInfo
+		cpseid      uint64 // the control plane's SEID of the session when the report was made
+		reusedFirst bool   // first report of a session that inherited the F-SEID of a deleted one
 	}
 	var expected []fwd
 	notifierLast := map[uint64]int64{}
